@@ -101,6 +101,7 @@ class Gen:
         r = self.r; lines = []
         g = [self.dy(-10, 10) for _ in range(3)] if r.random() < 0.8 else [Fr(0), Fr(-981, 100), Fr(0)]
         lines.append("gravity " + " ".join(fl(x) for x in g))
+        self.g_zero = all(x == 0 for x in g)
         n = r.randint(nmin, nmax)
         ops = []          # dict(kind, parent, movable, coords, is_fixed, ref)
         coords = []       # coordinate kinds in q order
@@ -195,6 +196,10 @@ class Gen:
         if rt == "com": d["has"] = r.random() < 0.7
         if rt == "zmp": d["n"] = " ".join(repr(float(x)) for x in self.axis()); d["p"] = self.pt()
         if rt == "scramble": d["k"] = r.randint(0, 9)
+        if rt == "fpe":
+            d["p"] = self.pt(); d["sw"] = r.choice(["0.01", "1e-06", "0.5"])
+            if r.random() < 0.15: d["QD"] = self.vec([Fr(0)] * len(qd))       # at rest: phi -> 0, n = u = 0
+            if getattr(self, "g_zero", False): d["rt"] = "pe"                    # the routine divides by |gravity|
         return d
     def render(self, d):
         rt = d["rt"]; fl_ = d["flag"]
@@ -215,6 +220,7 @@ class Gen:
         if rt == "zmp": return "zmp %d %s %s %s %s %s" % (fl_, d["Q"], d["QD"], d["QDD"], d["n"], d["p"])
         if rt == "ke": return "ke %d %s %s" % (fl_, d["Q"], d["QD"])
         if rt == "pe": return "pe %d %s" % (fl_, d["Q"])
+        if rt == "fpe": return "fpe %d %s %s %s %s" % (fl_, d["Q"], d["QD"], d["p"], d["sw"])
         if rt == "scramble": return "scramble %d" % d["k"]
         if rt == "ltl": return "ltl %s %s" % (d["Q"], d["TAU"])
         if rt == "hprops": return "hprops %s %s" % (d["Q"], d["QD"])
@@ -270,7 +276,7 @@ class Gen:
                 tail.append("updkinc 3 %s %s %s" % (" ".join(Q), " ".join(QD), " ".join(z)))
                 t2 = list(t); t2[5] = "0"; tail.append(" ".join(t2))
         return out + tail
-    def case_C12(self, idx): return self._with_calls(idx, ["com", "zmp", "ke", "pe", "fd"], ncalls=10)
+    def case_C12(self, idx): return self._with_calls(idx, ["com", "zmp", "ke", "pe", "fd", "fpe", "fpe"], ncalls=10)
 
     # documented preceding update for the flag-cleared form, and the observable to compare
     FLAGGED = {"b2b": ("q", "b2b"), "base2b": ("q", "base2b"), "orient": ("q", "orient"), "jac": ("q", "jac"), "jac6": ("q", "jac6"),
